@@ -30,10 +30,10 @@ import (
 type codec struct {
 	name  string
 	pkg   string
-	fixed int                          // exact wire size of a fixed-size message (0: variable)
-	min   int                          // minimal size of a variable-size message
-	dec   func([]byte) (any, error)    // fresh message from bytes
-	enc   func(any) ([]byte, error)    // bytes from message
+	fixed int                       // exact wire size of a fixed-size message (0: variable)
+	min   int                       // minimal size of a variable-size message
+	dec   func([]byte) (any, error) // fresh message from bytes
+	enc   func(any) ([]byte, error) // bytes from message
 }
 
 func noerr(f func() []byte) ([]byte, error) { return f(), nil }
@@ -216,9 +216,9 @@ func inputs(c *codec, tier string, yield func([]byte) bool) {
 
 func main() {
 	runner.Main(&runner.Harness{
-		ID:    "C18",
-		Level: "model_checking",
-		Rule: "for each exported wire-message type (OpenVPN header/plain/auth/crypt/crypt2/wrapped key, WireGuard initiation/transport, Winbox auth, RDP TPKT/X.224/token/negotiation request/correlation info): every length from 0 to size+3 (variable messages: min..min+40, thorough +300; Winbox up to 520) in three fill patterns, every byte-slice literal of the module's tests with all prefixes, extensions and single-position substitutions, and the counter pattern at the size bounds with all single-position substitutions; oracle: accepted => ToBytes(FromBytes(b)) == b and FromBytes(ToBytes(m)) == m; fixed-size messages reject every other length; no panic; states = distinct (type, input) pairs",
+		ID:          "C18",
+		Level:       "model_checking",
+		Rule:        "for each exported wire-message type (OpenVPN header/plain/auth/crypt/crypt2/wrapped key, WireGuard initiation/transport, Winbox auth, RDP TPKT/X.224/token/negotiation request/correlation info): every length from 0 to size+3 (variable messages: min..min+40, thorough +300; Winbox up to 520) in three fill patterns, every byte-slice literal of the module's tests with all prefixes, extensions and single-position substitutions, and the counter pattern at the size bounds with all single-position substitutions; oracle: accepted => ToBytes(FromBytes(b)) == b and FromBytes(ToBytes(m)) == m; fixed-size messages reject every other length; no panic; states = distinct (type, input) pairs",
 		Assumptions: []string{"equality of messages is structural (nil and empty slices equal)"},
 		Scenarios: func(tier string, yield func(any) bool) {
 			for _, c := range codecs {
